@@ -107,6 +107,21 @@ def work_c02(prop, tier, seed, widx, nworkers):
                     acc.add(case, cases.run_case(case, built))
                 built.close()
                 acc.counters['placements_pair'] = acc.counters.get('placements_pair', 0) + 1
+    # fault-free runs of larger programs (nested recurrent subgraphs, shared cases, chained one-ofs): termination
+    # is required there as well and the single-fault programs above are too small to contain these shapes
+    big = [gen.profile(p_rec=0.5, p_rec_nested=0.5, p_sw=0.15, p_oneof=0.15, n_max=11, p_fail=0.1),
+           gen.profile(p_sw=0.35, p_oneof=0.3, p_rec=0.15, p_share_lazy=0.4, n_max=11, p_fail=0.2)]
+    for i in range(60 if tier == 'quick' else 700):
+        prog = gen.gen_program(rng, big[i % 2])
+        _tagcount(acc, prog)
+        acc.programs += 1
+        built = harness.Built(prog)
+        for val in rng.sample([0, 1, 2, 3], 2):
+            for s in range(nsched):
+                case = base_case(prog, [['r0', val]], rng, placement='none')
+                acc.add(case, cases.run_case(case, built))
+        built.close()
+        acc.counters['fault_free_programs'] = acc.counters.get('fault_free_programs', 0) + 1
     return acc.result()
 
 
@@ -115,7 +130,8 @@ RULES['C02'] = ('programs from the grammar (no planned failures) x every single 
                 'each plain node, unknown label on each switch decider, CollabFault at every (event callback, '
                 'call index) and every artifact save of a baseline run; thorough adds all pairs of failing nodes '
                 'for programs <= 8 nodes. Each placement x schedules (random/PCT/fifo/lifo, batched delivery, one '
-                'starve-one). Verdict per run = exact quiescence oracle of the virtual loop. A case is non-trivial '
+                'starve-one); plus fault-free runs of larger programs (nested recurrent subgraphs, shared cases, chained one-ofs). '
+                'Verdict per run = exact quiescence oracle of the virtual loop. A case is non-trivial '
                 'if its schedule had >= 2 choice points with >= 2 options; distinct = distinct (program, placement, '
                 'schedule parameters) hash.')
 
